@@ -302,6 +302,8 @@ pub fn drive(tier: &str) -> i32 {
         ),
         builtin_programs(tier),
     ));
+    // the programs of the C01 / C03 / C04 / C05 generators, judged by this oracle too
+    groups.extend(super::genpool::generated_groups(quick));
     let mut seen: HashSet<u64> = HashSet::new();
     let mut reports = vec![];
     let mut samples = vec![];
